@@ -343,14 +343,29 @@ def count_events(tid, storage, sizes=(2, 2, 2)):
 CANARIES = {}
 
 
-def _canary_has_torn():
-    from pipefunc.map._storage_array._file import FileArray
+def _canary_non_atomic_dump():
+    """(the pre-fix behaviour, F24) files are written in place: a crash during the write leaves a torn file under
+    the final name.  The earlier canary "an existing element file counts as present" became an equivalent mutant
+    once writes were made atomic, so it was replaced by this one."""
+    import sys
 
-    # (the pre-fix behaviour) a torn element file counts as present
-    FileArray.mask_linear = lambda self: [not self._index_to_file(i).exists() for i in range(self.size)]
+    import cloudpickle
+
+    import pipefunc._utils as U
+
+    orig = U.dump
+
+    def dump(obj, path):
+        path.parent.mkdir(parents=True, exist_ok=True)
+        with path.open("wb") as f:
+            cloudpickle.dump(obj, f)
+
+    for name, mod in list(sys.modules.items()):
+        if name.startswith("pipefunc") and mod is not None and getattr(mod, "dump", None) is orig:
+            mod.dump = dump
 
 
-CANARIES["existence_is_completeness"] = _canary_has_torn
+CANARIES["non_atomic_dump"] = _canary_non_atomic_dump
 
 
 def obligations(tier):
@@ -376,7 +391,7 @@ def obligations(tier):
                     flags=("tokpickle",),
                     bounds=f"{tid}, {st}: crash at FS event {lo}..{hi} of {nmax} (for 2x2x2; sizes 1..2 symbolic), torn kind symbolic (before / half / empty); "
                     "resume with cleanup=False; values unbounded",
-                    canaries=("existence_is_completeness",) if (tid, st, lo) == ("T1", "file_array", 1) else (),
+                    canaries=("non_atomic_dump",) if (tid, st, lo) == ("T1", "file_array", 17) else (),
                 )
             )
         if thorough and (tid, st) in (("T1", "file_array"), ("T7", "dict")):
